@@ -167,7 +167,13 @@ fn gen_font(rng: &mut Rng, simple: bool) -> FontGen {
         let base = *rng.pick(&[0x41u32, 0x61, 0x391, 0x410, 0x4E00, 0xAC00, 0x30, 0x21, 0x00F0, 0x20F0]);
         let n = *rng.pick(&[5u32, 26, 26, 60, 94, 300]);
         let mut extras: Vec<(u16, Vec<u16>)> = vec![];
-        let mut codes: Vec<u16> = (1..=n as u16).collect();
+        // codes whose character is a control code have no place in a conservation statement
+        let mut codes: Vec<u16> = (1..=n as u16)
+            .filter(|c| {
+                let u = (base + (*c as u32) - 1) & 0xFFFF;
+                !(u < 0x20 || (0x7F..=0x9F).contains(&u) || (0xD800..0xE000).contains(&u))
+            })
+            .collect();
         let mut next = (n as u16).max(0x0200) + 1;
         let mut hyphen = None;
         let mut space = None;
@@ -221,7 +227,14 @@ fn word(rng: &mut Rng, f: &FontGen, len: usize, hyphen_end: bool, inner_space: b
                 enc(s, simple, &mut out);
             }
         }
-        let c = if rng.chance(1, 25) { f.hyphen.unwrap_or(f.codes[0]) } else { *rng.pick(&f.codes) };
+        let c = if rng.chance(1, 25) {
+            f.hyphen.unwrap_or(f.codes[0])
+        } else if simple && rng.chance(1, 2500) {
+            // the two typographic double quotes of WinAnsi (known finding C11-F2)
+            0x93 + rng.below(2) as u16
+        } else {
+            *rng.pick(&f.codes)
+        };
         enc(c, simple, &mut out);
     }
     if hyphen_end {
@@ -370,10 +383,6 @@ fn gen_doc(rng: &mut Rng, style: u64, big: bool) -> (String, String) {
                 xmap.push(t);
             }
         }
-        if nforms > 0 && rng.chance(1, 40) {
-            xmap.push(1 + rng.below(nforms as u64) as usize); // possibly cyclic
-            tags.push("maybe-cyclic");
-        }
         let matrix = if j > 0 && rng.chance(1, 2) {
             Some(match rng.below(3) {
                 0 => format!("1_0_0_1_{}_{}", rng.range(-50, 200), rng.range(-300, 100)),
@@ -410,6 +419,8 @@ fn gen_doc(rng: &mut Rng, style: u64, big: bool) -> (String, String) {
         // marked-content scopes opened in this stream (closed before the stream ends, mostly)
         let mut open_mc = 0usize;
         let mut mcid_next = 0u32;
+        // forms painted from inside the text of this stream (bounded: nesting multiplies the work)
+        let mut dos = 0usize;
         ops.push("BT".into());
         ops.push(format!("Tf:{}:{}", cur_font, size));
         if cx.rng.chance(1, 2) {
@@ -554,8 +565,9 @@ fn gen_doc(rng: &mut Rng, style: u64, big: bool) -> (String, String) {
                     }
                 }
                 // paint a form in the middle of the text
-                if !xmap.is_empty() && cx.rng.chance(1, 4) {
-                    let inside_bt = cx.rng.chance(1, 3);
+                if !xmap.is_empty() && dos < 2 && cx.rng.chance(1, 4) {
+                    dos += 1;
+                    let inside_bt = cx.rng.chance(1, 12);
                     if !inside_bt {
                         ops.push("ET".into());
                     }
@@ -568,7 +580,7 @@ fn gen_doc(rng: &mut Rng, style: u64, big: bool) -> (String, String) {
             }
         }
         while open_mc > 0 {
-            if cx.rng.chance(9, 10) {
+            if cx.rng.chance(49, 50) {
                 ops.push("EMC".into());
             }
             open_mc -= 1;
@@ -577,7 +589,8 @@ fn gen_doc(rng: &mut Rng, style: u64, big: bool) -> (String, String) {
         if !xmap.is_empty() {
             // every declared form is painted at least once from somewhere, usually
             for k in 0..xmap.len() {
-                if cx.rng.chance(2, 3) {
+                if dos < 3 && cx.rng.chance(2, 3) {
+                    dos += 1;
                     ops.push(format!("Do:{}", k));
                 }
             }
